@@ -475,22 +475,179 @@ theorem valueChunks_ok (k v : Str) (bs : List Nat) (hq : '"' ∉ v) (hp : ∀ x 
       refine ⟨c0, cs, rfl, ⟨hb, fun c hc hm => hq (hmem c hc _ hm), fun c hc x hx => hp x (hmem c hc x hx)⟩, ?_, hlast c0 cs hb⟩
       rw [hsep]; exact hj
 
-/-- the lines of one qualifier: the first line and the continuation chunks, with the state the
-continuation loop needs and the text it puts together -/
-theorem qualLines_shape (k v : Str) (bs : List Nat) (h : wfQual (k, v) = true) :
-    ∃ d0 ds, qualLines k v bs = (spaces 21 ++ (W k ++ d0)) :: ds.map (spaces 21 ++ ·) ∧
-      QState (('/' :: k) == c!"/translation") (spaces 21 ++ (W k ++ d0)) ds ∧
-      ds.foldl (appendQ (('/' :: k) == c!"/translation")) (spaces 21 ++ (W k ++ d0))
-        = spaces 21 ++ (W k ++ v ++ c!"\"") := by
+/-- `qualifierKey == "/translation"` as the loop computes it from the first line -/
+def keyTr (L0 : Str) : Bool := trimSpace (headOf (split L0 c!"=")) == c!"/translation"
+
+/-- label and value as the loop takes them from the complete qualifier text -/
+def qualKV (q : Str) : Str × Str :=
+  let sp := splitN2 '=' (trimSpace q)
+  (trimPrefix (trimSpace (headOf sp)) c!"/", attributeValueOf sp)
+
+/-- what the qualifier loop needs of the lines of one qualifier `(k, v)`: a first line that is a
+qualifier line, continuation chunks that keep the continuation loop going exactly to the end, and a text
+from which key and value come out -/
+def QLines (k v : Str) (lines : List Str) : Prop :=
+  ∃ L0 ds, lines = L0 :: ds.map (spaces 21 ++ ·) ∧ quickQualifierCheck L0 = .ok true
+    ∧ quickQualifierSubLineCheck L0 = .ok false ∧ L0[21]? = some '/'
+    ∧ QState (keyTr L0) L0 ds ∧ qualKV (ds.foldl (appendQ (keyTr L0)) L0) = (k, v)
+
+/-- a first line `21 blanks + /key + tail` where the tail is empty or starts with '=' -/
+theorem slashKey_line (k tail : Str) (hk : KeyOK k) (ht : tail = [] ∨ ∃ r, tail = '=' :: r) :
+    quickQualifierCheck (spaces 21 ++ ('/' :: (k ++ tail))) = .ok true ∧
+      quickQualifierSubLineCheck (spaces 21 ++ ('/' :: (k ++ tail))) = .ok false ∧
+      (spaces 21 ++ ('/' :: (k ++ tail)))[21]? = some '/' ∧
+      trimSpace (headOf (split (spaces 21 ++ ('/' :: (k ++ tail))) c!"=")) = '/' :: k := by
+  have g0 := spaces21_get ('/' :: (k ++ tail)) 0 (by omega)
+  have g5 := spaces21_get ('/' :: (k ++ tail)) 5 (by omega)
+  have g21 : (spaces 21 ++ ('/' :: (k ++ tail)))[21]? = some '/' := by rw [spaces21_get21]; rfl
+  have hne : '=' ∉ spaces 21 ++ '/' :: k := by
+    simp only [List.mem_append, List.mem_cons, not_or, spaces, List.mem_replicate]
+    exact ⟨by simp, by decide, hk.noeq⟩
+  have htrim : trimSpace (spaces 21 ++ '/' :: k) = '/' :: k := by
+    have := trimSpace_spaces 21 0 ('/' :: k) (by intro c hc; simp at hc; subst hc; decide) (by
+      intro c hc
+      rw [List.getLast?_cons] at hc
+      cases hkl : k.getLast? with
+      | none => exact absurd (List.getLast?_eq_none_iff.mp hkl) hk.ne
+      | some y => rw [hkl] at hc; simp at hc; subst hc; exact hk.nosp y (List.mem_of_getLast? hkl))
+    simpa [spaces] using this
+  refine ⟨?_, ?_, g21, ?_⟩
+  · simp [quickQualifierCheck, Str.at, subMetaIndex, qualifierIndex, g0, g5, g21]
+  · simp [quickQualifierSubLineCheck, Str.at, subMetaIndex, qualifierIndex, g0, g5, g21]
+  · show trimSpace (headOf (splitC '=' _)) = _
+    rcases ht with rfl | ⟨r, rfl⟩
+    · rw [List.append_nil, splitC_of_not_mem '=' _ hne]; exact htrim
+    · have hform : spaces 21 ++ ('/' :: (k ++ '=' :: r)) = (spaces 21 ++ '/' :: k) ++ '=' :: r := by simp
+      rw [hform, splitC_append '=' _ _ hne]; exact htrim
+
+theorem W_eq (k d0 : Str) : W k ++ d0 = '/' :: (k ++ ('=' :: '"' :: d0)) := by simp [W]
+
+theorem keyTr_eq (k tail : Str) (hk : KeyOK k) (ht : tail = [] ∨ ∃ r, tail = '=' :: r) :
+    keyTr (spaces 21 ++ ('/' :: (k ++ tail))) = (('/' :: k) == c!"/translation") := by
+  unfold keyTr; rw [(slashKey_line k tail hk ht).2.2.2]
+
+theorem trimSpace_slashKey (k : Str) (hk : KeyOK k) : trimSpace ('/' :: k) = '/' :: k := by
+  apply trimSpace_id
+  · intro c hc; simp at hc; subst hc; decide
+  · intro c hc
+    rw [List.getLast?_cons] at hc
+    cases hkl : k.getLast? with
+    | none => exact absurd (List.getLast?_eq_none_iff.mp hkl) hk.ne
+    | some y => rw [hkl] at hc; simp at hc; subst hc; exact hk.nosp y (List.mem_of_getLast? hkl)
+
+theorem unclosed_noquote (X : Str) (h : '"' ∉ trimSpace X) : unclosed X = false := by
+  simp only [unclosed, unclosedQuote]
+  have : List.elem '"' (trimSpace X) = false := by simpa using h
+  rw [this]; rfl
+
+/-- the lines the writer makes of a qualifier, whatever the style, are such lines -/
+theorem qualLines_ok (k v : Str) (bs : List Nat) (st : Nat) (h : wfQual (k, v) = true) : QLines k v (qualLines k v bs st) := by
   obtain ⟨hk, hq, hp⟩ := wfQual_parts h
-  obtain ⟨c0, cs, hvc, hV, hj, hl⟩ := valueChunks_ok k v bs hq hp
-  obtain ⟨d0, ds, hcl, hqs, hfold⟩ := qstate_chunks (('/' :: k) == c!"/translation") k hk cs c0 [] ' ' hV (by simp) hl
-  refine ⟨d0, ds, ?_, by simpa using hqs, ?_⟩
-  · unfold qualLines
-    rw [hvc, hcl]
-    simp [hang, W, List.append_assoc]
-  · simp only [List.append_nil] at hfold
-    rw [hfold, hj]
+  unfold qualLines
+  split
+  · -- `/key`
+    obtain ⟨c1, c2, c3, c4⟩ := slashKey_line k [] hk (Or.inl rfl)
+    rename_i hst
+    simp only [List.append_nil] at c1 c2 c3 c4
+    have hL : spaces 21 ++ c!"/" ++ k = spaces 21 ++ ('/' :: k) := by simp
+    refine ⟨spaces 21 ++ ('/' :: k), [], by rw [hL]; rfl, c1, c2, c3, ?_, ?_⟩
+    · simp only [QState]
+      apply unclosed_noquote
+      have := trimSpace_spaces 21 0 ('/' :: k) (by intro c hc; simp at hc; subst hc; decide)
+        (by intro c hc; have := trimSpace_slashKey k hk; rw [← this] at hc; rw [this] at hc
+            rw [List.getLast?_cons] at hc
+            cases hkl : k.getLast? with
+            | none => exact absurd (List.getLast?_eq_none_iff.mp hkl) hk.ne
+            | some y => rw [hkl] at hc; simp at hc; subst hc; exact hk.nosp y (List.mem_of_getLast? hkl))
+      have e : trimSpace (spaces 21 ++ '/' :: k) = '/' :: k := by simpa [spaces] using this
+      rw [e]; simp only [List.mem_cons, not_or]; exact ⟨by decide, hk.noq⟩
+    · simp only [List.foldl_nil, qualKV]
+      have e : trimSpace (spaces 21 ++ '/' :: k) = '/' :: k := by
+        have := (slashKey_line k [] hk (Or.inl rfl)).2.2.2
+        simp only [List.append_nil] at this
+        have hs : split (spaces 21 ++ '/' :: k) c!"=" = [spaces 21 ++ '/' :: k] := by
+          show splitC '=' _ = _
+          apply splitC_of_not_mem
+          simp only [List.mem_append, List.mem_cons, not_or, spaces, List.mem_replicate]
+          exact ⟨by simp, by decide, hk.noeq⟩
+        rw [hs] at this; exact this
+      rw [e]
+      have hc : List.contains ('/' :: k) '=' = false := by
+        simp only [List.contains_cons, Bool.or_eq_false_iff]
+        exact ⟨by decide, by simpa using hk.noeq⟩
+      simp only [splitN2, hc, Bool.false_eq_true, if_false, headOf, trimSpace_slashKey k hk]
+      rw [hst.2]; simp [trimPrefix, attributeValueOf]
+  · split
+    · -- `/key=value`
+      rename_i _ hst
+      have hcu := hst.2
+      simp only [canUnquote, Bool.and_eq_true, bne_iff_ne, ne_eq, Bool.not_eq_true'] at hcu
+      obtain ⟨hvne, hvsp⟩ := hcu
+      have hvsp' : ' ' ∉ v := by simpa using hvsp
+      obtain ⟨c1, c2, c3, c4⟩ := slashKey_line k ('=' :: v) hk (Or.inr ⟨v, rfl⟩)
+      have hL : spaces 21 ++ c!"/" ++ k ++ c!"=" ++ v = spaces 21 ++ ('/' :: (k ++ '=' :: v)) := by simp
+      have hvlast : ∀ c, v.getLast? = some c → isSpace c = false := by
+        intro c hc
+        exact isSpace_false_of_print (hp c (List.mem_of_getLast? hc)) (by rintro rfl; exact hvsp' (List.mem_of_getLast? hc))
+      have hvhead : ∀ c, v.head? = some c → isSpace c = false := by
+        intro c hc
+        exact isSpace_false_of_print (hp c (List.mem_of_mem_head? hc)) (by rintro rfl; exact hvsp' (List.mem_of_mem_head? hc))
+      have e : trimSpace (spaces 21 ++ '/' :: (k ++ '=' :: v)) = '/' :: (k ++ '=' :: v) := by
+        have := trimSpace_spaces 21 0 ('/' :: (k ++ '=' :: v)) (by intro c hc; simp at hc; subst hc; decide) (by
+          intro c hc
+          have : '/' :: (k ++ '=' :: v) = ('/' :: k ++ ['=']) ++ v := by simp
+          rw [this, getLast?_append_ne _ _ hvne] at hc
+          exact hvlast c hc)
+        simpa [spaces] using this
+      refine ⟨spaces 21 ++ ('/' :: (k ++ '=' :: v)), [], by rw [hL]; rfl, c1, c2, c3, ?_, ?_⟩
+      · simp only [QState]
+        apply unclosed_noquote
+        rw [e]
+        simp only [List.mem_cons, List.mem_append, not_or]
+        exact ⟨by decide, hk.noq, by decide, hq⟩
+      · simp only [List.foldl_nil, qualKV, e]
+        have hall : ∀ x ∈ '/' :: k, (x != '=') = true := by
+          intro x hx
+          simp only [List.mem_cons] at hx
+          rcases hx with rfl | hx
+          · decide
+          · simp; rintro rfl; exact hk.noeq hx
+        obtain ⟨t1, t2⟩ := takeWhile_append_stop (· != '=') ('/' :: k) '=' v hall (by decide)
+        have hform : '/' :: (k ++ '=' :: v) = ('/' :: k) ++ '=' :: v := by simp
+        have hc : List.contains ('/' :: (k ++ '=' :: v)) '=' = true := by simp
+        simp only [splitN2, hc, if_true]
+        rw [hform, t1, t2]
+        simp only [List.drop_succ_cons, List.drop_zero, headOf, trimSpace_slashKey k hk]
+        have hv1 : trimSpace v = v := trimSpace_id v hvhead hvlast
+        have hv2 : trim v c!"\"" = v := by
+          have hnot : ∀ x ∈ v, (c!"\"").contains x = false := by
+            intro x hx; simp; rintro rfl; exact hq hx
+          simp only [trim]
+          cases v with
+          | nil => rfl
+          | cons x xs =>
+            rw [List.dropWhile_cons_of_neg (by rw [hnot x (by simp)]; simp)]
+            have hl : ∃ y ys, (x :: xs).reverse = y :: ys ∧ y ∈ x :: xs := by
+              cases h : (x :: xs).reverse with
+              | nil => simp at h
+              | cons y ys => exact ⟨y, ys, rfl, by rw [← List.mem_reverse, h]; simp⟩
+            obtain ⟨y, ys, hrev, hy⟩ := hl
+            rw [hrev, List.dropWhile_cons_of_neg (by rw [hnot y hy]; simp), ← hrev, List.reverse_reverse]
+        simp only [attributeValueOf]
+        rw [hv1, hv2]; simp [trimPrefix]
+    · -- `/key="value"`, wrapped
+      obtain ⟨c0, cs, hvc, hV, hj, hl⟩ := valueChunks_ok k v bs hq hp
+      obtain ⟨d0, ds, hcl, hqs, hfold⟩ := qstate_chunks (('/' :: k) == c!"/translation") k hk cs c0 [] ' ' hV (by simp) hl
+      simp only [List.append_nil] at hqs hfold
+      obtain ⟨c1, c2, c3, c4⟩ := slashKey_line k ('=' :: '"' :: d0) hk (Or.inr ⟨_, rfl⟩)
+      have hkt := keyTr_eq k ('=' :: '"' :: d0) hk (Or.inr ⟨_, rfl⟩)
+      rw [← W_eq] at c1 c2 c3 hkt
+      refine ⟨spaces 21 ++ (W k ++ d0), ds, ?_, c1, c2, c3, ?_, ?_⟩
+      · rw [hvc, hcl]; simp [hang, W, List.append_assoc]
+      · rw [hkt]; exact hqs
+      · rw [hkt, hfold, hj]
+        obtain ⟨p1, p2, p3⟩ := parse_qual_text k v hk hq
+        simp only [qualKV, p1, headOf, p2, attributeValueOf, p3]
 
 /-! ### map insertion with fresh keys -/
 
@@ -530,78 +687,75 @@ theorem head_split (X : List Str) (stop : Str) (B : List Str) :
   | nil => exact ⟨B, rfl⟩
   | cons x xs => exact ⟨xs ++ stop :: B, rfl⟩
 
-theorem qualsLines_cons (k v : Str) (qs : List (Str × Str)) (ls : List (List Nat)) :
-    qualsLines ((k, v) :: qs) ls = qualLines k v (ls.headD []) ++ qualsLines qs ls.tail := rfl
+theorem qualsLines_cons (k v : Str) (qs : List (Str × Str)) (ls : List (List Nat)) (sts : List Nat) :
+    qualsLines ((k, v) :: qs) ls sts = qualLines k v (ls.headD []) (sts.headD 0) ++ qualsLines qs ls.tail sts.tail := rfl
 
 /-- the first line after the lines of a qualifier list does not look like a continuation line -/
-theorem next_not_subline (qs : List (Str × Str)) (ls : List (List Nat)) (stop : Str)
+theorem next_not_subline (qs : List (Str × Str)) (ls : List (List Nat)) (sts : List Nat) (stop : Str)
     (hq : ∀ q ∈ qs, wfQual q = true) (hs2 : quickQualifierSubLineCheck stop = .ok false) :
-    quickQualifierSubLineCheck ((qualsLines qs ls ++ [stop]).headD []) = .ok false := by
+    quickQualifierSubLineCheck ((qualsLines qs ls sts ++ [stop]).headD []) = .ok false := by
   cases qs with
   | nil => exact hs2
   | cons q r =>
     obtain ⟨k, v⟩ := q
-    obtain ⟨d0, ds, hshape, _, _⟩ := qualLines_shape k v (ls.headD []) (hq (k, v) (by simp))
+    obtain ⟨L0, ds, hshape, _, c2, _⟩ := qualLines_ok k v (ls.headD []) (sts.headD 0) (hq (k, v) (by simp))
     rw [qualsLines_cons, hshape]
-    exact (qual_first_line k d0 (wfQual_parts (hq (k, v) (by simp))).1).2.1
+    exact c2
 
 theorem qualLoop_quals (lines : List Str) (stop : Str) (B : List Str)
     (hs1 : quickQualifierCheck stop = .ok false) (hs2 : quickQualifierSubLineCheck stop = .ok false) :
-    ∀ (qs : List (Str × Str)) (ls : List (List Nat)) (A : List Str) (attrs : List (Str × Str)) (fuel : Nat),
-      lines = A ++ (qualsLines qs ls ++ stop :: B) → (∀ q ∈ qs, wfQual q = true) → qs.length < fuel →
-      qualLoop lines fuel attrs A.length ((qualsLines qs ls ++ [stop]).headD []) =
-        .ok (qs.foldl (fun m q => mapInsert m q.1 q.2) attrs, A.length + (qualsLines qs ls).length) := by
+    ∀ (qs : List (Str × Str)) (ls : List (List Nat)) (sts : List Nat) (A : List Str) (attrs : List (Str × Str)) (fuel : Nat),
+      lines = A ++ (qualsLines qs ls sts ++ stop :: B) → (∀ q ∈ qs, wfQual q = true) → qs.length < fuel →
+      qualLoop lines fuel attrs A.length ((qualsLines qs ls sts ++ [stop]).headD []) =
+        .ok (qs.foldl (fun m q => mapInsert m q.1 q.2) attrs, A.length + (qualsLines qs ls sts).length) := by
   intro qs
   induction qs with
   | nil =>
-    intro ls A attrs fuel hl _ hf
+    intro ls sts A attrs fuel hl _ hf
     obtain ⟨f, rfl⟩ : ∃ f, fuel = f + 1 := ⟨fuel - 1, by simp at hf; omega⟩
     simp [qualsLines, qualLoop, hs1]
   | cons q rest ih =>
-    intro ls A attrs fuel hl hq hf
+    intro ls sts A attrs fuel hl hq hf
     obtain ⟨f, rfl⟩ : ∃ f, fuel = f + 1 := ⟨fuel - 1, by simp at hf; omega⟩
     obtain ⟨k, v⟩ := q
     have hwq := hq (k, v) (by simp)
-    obtain ⟨hk, hvq, _⟩ := wfQual_parts hwq
-    obtain ⟨d0, ds, hshape, hqs, hfold⟩ := qualLines_shape k v (ls.headD []) hwq
-    obtain ⟨c1, c2, c3⟩ := qual_first_line k d0 hk
-    obtain ⟨B', hB'⟩ := head_split (qualsLines rest ls.tail) stop B
-    have hnext := next_not_subline rest ls.tail stop (fun x hx => hq x (by simp [hx])) hs2
-    generalize hstopR : (qualsLines rest ls.tail ++ [stop]).headD [] = stopR at hB' hnext
+    obtain ⟨L0, ds, hshape, c1, _, _, hqs, hkv⟩ := qualLines_ok k v (ls.headD []) (sts.headD 0) hwq
+    obtain ⟨B', hB'⟩ := head_split (qualsLines rest ls.tail sts.tail) stop B
+    have hnext := next_not_subline rest ls.tail sts.tail stop (fun x hx => hq x (by simp [hx])) hs2
+    generalize hstopR : (qualsLines rest ls.tail sts.tail ++ [stop]).headD [] = stopR at hB' hnext
     rw [qualsLines_cons, hshape] at hl ⊢
     simp only [List.cons_append, List.append_assoc] at hl
     rw [hB'] at hl
     subst hl
     simp only [List.cons_append, List.headD_cons, qualLoop, c1, Outcome.bind_ok', Bool.not_true, Bool.false_eq_true,
-      if_false, c3]
+      if_false]
     -- the line after the first line of the qualifier
-    have e1 : A ++ (spaces 21 ++ (W k ++ d0)) :: (ds.map (spaces 21 ++ ·) ++ stopR :: B')
-        = (A ++ [spaces 21 ++ (W k ++ d0)]) ++ (ds.map (spaces 21 ++ ·) ++ stopR :: B') := by simp
-    have hline : lineAt (A ++ (spaces 21 ++ (W k ++ d0)) :: (ds.map (spaces 21 ++ ·) ++ stopR :: B')) (A.length + 1)
+    have e1 : A ++ L0 :: (ds.map (spaces 21 ++ ·) ++ stopR :: B')
+        = (A ++ [L0]) ++ (ds.map (spaces 21 ++ ·) ++ stopR :: B') := by simp
+    have hline : lineAt (A ++ L0 :: (ds.map (spaces 21 ++ ·) ++ stopR :: B')) (A.length + 1)
         = .ok ((ds.map (spaces 21 ++ ·) ++ [stopR]).headD []) := by
       rw [e1]
       obtain ⟨B'', hB''⟩ := head_split (ds.map (spaces 21 ++ ·)) stopR B'
       rw [hB'']
-      simpa using lineAt_mid (A ++ [spaces 21 ++ (W k ++ d0)]) _ B''
+      simpa using lineAt_mid (A ++ [L0]) _ B''
     rw [hline]
     simp only [Outcome.bind_ok']
-    have hsub := subLoop_conts _ (('/' :: k) == c!"/translation") ds stopR B' hnext
-      (A ++ [spaces 21 ++ (W k ++ d0)]) (spaces 21 ++ (W k ++ d0))
-      ((A ++ (spaces 21 ++ (W k ++ d0)) :: (ds.map (spaces 21 ++ ·) ++ stopR :: B')).length + 1) e1 hqs
-      (by simp; omega)
+    have hsub := subLoop_conts _ (keyTr L0) ds stopR B' hnext (A ++ [L0]) L0
+      ((A ++ L0 :: (ds.map (spaces 21 ++ ·) ++ stopR :: B')).length + 1) e1 hqs (by simp; omega)
     simp only [List.length_append, List.length_cons, List.length_nil] at hsub
     simp only [List.length_append, List.length_cons, List.length_map]
     simp only [List.length_append, List.length_cons, List.length_map] at hsub
-    rw [hsub]
-    simp only [Outcome.bind_ok', hfold]
-    obtain ⟨p1, p2, p3⟩ := parse_qual_text k v hk hvq
-    simp only [p1, headOf, p2, p3]
+    rw [show (trimSpace (headOf (split L0 c!"=")) == c!"/translation") = keyTr L0 from rfl, hsub]
+    simp only [Outcome.bind_ok']
+    have hk1 : trimPrefix (trimSpace (headOf (splitN2 '=' (trimSpace (ds.foldl (appendQ (keyTr L0)) L0))))) c!"/" = k :=
+      congrArg Prod.fst hkv
+    have hv1 : attributeValueOf (splitN2 '=' (trimSpace (ds.foldl (appendQ (keyTr L0)) L0))) = v := congrArg Prod.snd hkv
+    rw [hk1, hv1]
     -- the remaining qualifiers
-    have hrec := ih ls.tail (A ++ (spaces 21 ++ (W k ++ d0)) :: ds.map (spaces 21 ++ ·)) (mapInsert attrs k v) f
+    have hrec := ih ls.tail sts.tail (A ++ L0 :: ds.map (spaces 21 ++ ·)) (mapInsert attrs k v) f
       (by simp [hB']) (fun x hx => hq x (by simp [hx])) (by simp at hf; omega)
     rw [hstopR] at hrec
     simp only [List.length_append, List.length_cons, List.length_map] at hrec
-    have e2 : A.length + 0 + 1 + ds.length = A.length + (ds.length + 1) := by omega
     simp only [Nat.add_zero] at *
     rw [show A.length + 1 + ds.length = A.length + (ds.length + 1) by omega, hrec]
     simp [List.foldl_cons]; omega
@@ -694,32 +848,43 @@ theorem fLine_split (key lc0 : Str) (h : FKeyOK key) (hl : LocChunk lc0) :
 
 theorem featLines_eq (f : RFeature) (ℓ : FeatLayout) :
     ∃ lc0 lcs, cutLoc ℓ.loc f.loc = lc0 :: lcs ∧
-      featLines f ℓ = fLine f.key lc0 :: (lcs.map (spaces 21 ++ ·) ++ qualsLines f.quals ℓ.quals) := by
+      featLines f ℓ = fLine f.key lc0 :: (lcs.map (spaces 21 ++ ·) ++ qualsLines f.quals ℓ.quals ℓ.styles) := by
   cases hc : cutLoc ℓ.loc f.loc with
   | nil => exact absurd hc (cutLocAux_ne_nil _ _ _)
   | cons lc0 lcs => exact ⟨lc0, lcs, rfl, by simp [featLines, hc, hang, fLine]⟩
 
+theorem wfFeatureLoose_parts {f : RFeature} (h : wfFeatureLoose f = true) :
+    FKeyOK f.key ∧ f.loc ≠ [] ∧ (∀ x ∈ f.loc, isLocChar x = true) ∧ (∀ q ∈ f.quals, wfQual q = true) := by
+  simp only [wfFeatureLoose, Bool.and_eq_true, bne_iff_ne, ne_eq, decide_eq_true_eq, List.all_eq_true] at h
+  obtain ⟨⟨⟨⟨⟨⟨h1, h2⟩, h3⟩, h4⟩, h5⟩, h6⟩, _⟩ := h
+  exact ⟨fkeyOK_of_wf h1 h2 (by rw [List.all_eq_true]; exact h3), h4, h5, h6⟩
+
+theorem wfFeature_loose {f : RFeature} (h : wfFeature f = true) :
+    wfFeatureLoose f = true ∧ distinct (f.quals.map (·.1)) = true := by
+  simp only [wfFeature, wfFeatureLoose, Bool.and_eq_true] at h ⊢
+  obtain ⟨⟨⟨⟨⟨⟨⟨h1, h2⟩, h3⟩, h4⟩, h5⟩, h6⟩, h7⟩, h8⟩ := h
+  exact ⟨⟨⟨⟨⟨⟨⟨h1, h2⟩, h3⟩, h4⟩, h5⟩, h6⟩, h8⟩, h7⟩
+
 theorem wfFeature_parts {f : RFeature} (h : wfFeature f = true) :
     FKeyOK f.key ∧ f.loc ≠ [] ∧ (∀ x ∈ f.loc, isLocChar x = true) ∧ (∀ q ∈ f.quals, wfQual q = true)
       ∧ distinct (f.quals.map (·.1)) = true := by
-  simp only [wfFeature, Bool.and_eq_true, bne_iff_ne, ne_eq, decide_eq_true_eq, List.all_eq_true] at h
-  obtain ⟨⟨⟨⟨⟨⟨h1, h2⟩, h3⟩, h4⟩, h5⟩, h6⟩, h7⟩ := h
-  exact ⟨fkeyOK_of_wf h1 h2 (by rw [List.all_eq_true]; exact h3), h4, h5, h6, h7⟩
+  obtain ⟨hl, hd⟩ := wfFeature_loose h
+  obtain ⟨a, b, c, d⟩ := wfFeatureLoose_parts hl
+  exact ⟨a, b, c, d, hd⟩
 
 /-- the line that follows a feature's location lines is not a location continuation -/
-theorem after_loc_not_cont (qs : List (Str × Str)) (ls : List (List Nat)) (stop : Str)
+theorem after_loc_not_cont (qs : List (Str × Str)) (ls : List (List Nat)) (sts : List Nat) (stop : Str)
     (hq : ∀ q ∈ qs, wfQual q = true) (hs : ¬ IsLocCont stop) :
-    ¬ IsLocCont ((qualsLines qs ls ++ [stop]).headD []) := by
+    ¬ IsLocCont ((qualsLines qs ls sts ++ [stop]).headD []) := by
   cases qs with
   | nil => exact hs
   | cons q r =>
     obtain ⟨k, v⟩ := q
-    obtain ⟨d0, ds, hshape, _, _⟩ := qualLines_shape k v (ls.headD []) (hq (k, v) (by simp))
+    obtain ⟨L0, ds, hshape, _, _, c3, _, _⟩ := qualLines_ok k v (ls.headD []) (sts.headD 0) (hq (k, v) (by simp))
     rw [qualsLines_cons, hshape]
     simp only [List.cons_append, List.headD_cons]
     intro ⟨_, _, h3⟩
-    apply h3
-    rw [show qualifierIndex = 21 from rfl, spaces21_get21]; simp [W]
+    exact h3 c3
 
 /-- stop lines of the feature table: what `featsLines fs ++ [stop]` starts with -/
 structure FStop (l : Str) : Prop where
@@ -731,22 +896,49 @@ theorem featsLines_cons (f : RFeature) (fs : List RFeature) (ls : List FeatLayou
     featsLines (f :: fs) ls = featLines f (ls.headD {}) ++ featsLines fs ls.tail := rfl
 
 theorem next_feature_stop (fs : List RFeature) (ls : List FeatLayout) (stop : Str)
-    (hf : ∀ f ∈ fs, wfFeature f = true) (hs : FStop stop) : FStop ((featsLines fs ls ++ [stop]).headD []) := by
+    (hf : ∀ f ∈ fs, wfFeatureLoose f = true) (hs : FStop stop) : FStop ((featsLines fs ls ++ [stop]).headD []) := by
   cases fs with
   | nil => exact hs
   | cons f r =>
     obtain ⟨lc0, lcs, _, hfl⟩ := featLines_eq f (ls.headD {})
-    obtain ⟨hk, _⟩ := wfFeature_parts (hf f (by simp))
+    obtain ⟨hk, _⟩ := wfFeatureLoose_parts (hf f (by simp))
     rw [featsLines_cons, hfl]
     simp only [List.cons_append, List.headD_cons]
     obtain ⟨_, _, c3, c4⟩ := fLine_checks f.key lc0 hk
     exact ⟨c3, c4, fLine_not_locCont f.key lc0 hk⟩
 
+theorem qualsLines_length (qs : List (Str × Str)) (lq : List (List Nat)) (sts : List Nat) :
+    qs.length ≤ (qualsLines qs lq sts).length := by
+  induction qs generalizing lq sts with
+  | nil => simp
+  | cons q r ihq =>
+    obtain ⟨k, v⟩ := q
+    rw [qualsLines_cons]
+    have hne : (qualLines k v (lq.headD []) (sts.headD 0)).length ≥ 1 := by
+      unfold qualLines
+      split
+      · simp
+      · split
+        · simp
+        · cases hcl : closeLast (valueChunks k v (lq.headD [])) <;> simp [hang]
+    have := ihq lq.tail sts.tail
+    simp only [List.length_cons, List.length_append]; omega
+
+/-- a feature as the parser's map keeps it: of several qualifiers with one key the last value wins
+(in the place of the first) -/
+def toFeatureM (f : RFeature) : Feature :=
+  { type := f.key, gbkLoc := f.loc, attrs := f.quals.foldl (fun m q => mapInsert m q.1 q.2) [] }
+
+theorem toFeatureM_eq {f : RFeature} (hd : distinct (f.quals.map (·.1)) = true) : toFeatureM f = toFeature f := by
+  have := foldl_mapInsert f.quals [] hd (by simp)
+  simp only [List.nil_append] at this
+  simp [toFeatureM, toFeature, this]
+
 theorem featLoop_feats (lines : List Str) (stop : Str) (B : List Str)
     (hm : quickMetaCheck stop = .ok true) (hs : FStop stop) :
     ∀ (fs : List RFeature) (ls : List FeatLayout) (A : List Str) (acc : List Feature) (fuel : Nat),
-      lines = A ++ (featsLines fs ls ++ stop :: B) → (∀ f ∈ fs, wfFeature f = true) → fs.length < fuel →
-      featLoop lines fuel acc A.length = .ok (acc ++ fs.map toFeature) := by
+      lines = A ++ (featsLines fs ls ++ stop :: B) → (∀ f ∈ fs, wfFeatureLoose f = true) → fs.length < fuel →
+      featLoop lines fuel acc A.length = .ok (acc ++ fs.map toFeatureM) := by
   intro fs
   induction fs with
   | nil =>
@@ -759,7 +951,7 @@ theorem featLoop_feats (lines : List Str) (stop : Str) (B : List Str)
     intro ls A acc fuel hl hwf hf
     obtain ⟨f, rfl⟩ : ∃ f, fuel = f + 1 := ⟨fuel - 1, by simp at hf; omega⟩
     have hw := hwf ft (by simp)
-    obtain ⟨hk, hlne, hlch, hqw, hqd⟩ := wfFeature_parts hw
+    obtain ⟨hk, hlne, hlch, hqw⟩ := wfFeatureLoose_parts hw
     obtain ⟨lc0, lcs, hcut, hfl⟩ := featLines_eq ft (ls.headD {})
     -- the chunks of the location
     have hflat : (lc0 :: lcs).flatten = ft.loc := by rw [← hcut]; exact flatten_cutLocAux _ 0 _
@@ -773,9 +965,11 @@ theorem featLoop_feats (lines : List Str) (stop : Str) (B : List Str)
     have hnextF := next_feature_stop rest ls.tail stop (fun x hx => hwf x (by simp [hx])) hs
     obtain ⟨B1, hB1⟩ := head_split (featsLines rest ls.tail) stop B
     generalize hstopF : (featsLines rest ls.tail ++ [stop]).headD [] = stopF at hB1 hnextF
-    have hnextQ := after_loc_not_cont ft.quals (ls.headD {}).quals stopF hqw hnextF.nl
-    obtain ⟨B2, hB2⟩ := head_split (qualsLines ft.quals (ls.headD {}).quals) stopF B1
-    generalize hstopQ : (qualsLines ft.quals (ls.headD {}).quals ++ [stopF]).headD [] = stopQ at hB2 hnextQ
+    generalize hQL : qualsLines ft.quals (ls.headD {}).quals (ls.headD {}).styles = QL at hfl
+    have hnextQ := after_loc_not_cont ft.quals (ls.headD {}).quals (ls.headD {}).styles stopF hqw hnextF.nl
+    rw [hQL] at hnextQ
+    obtain ⟨B2, hB2⟩ := head_split QL stopF B1
+    generalize hstopQ : (QL ++ [stopF]).headD [] = stopQ at hB2 hnextQ
     rw [featsLines_cons, hfl] at hl
     simp only [List.cons_append, List.append_assoc] at hl
     rw [hB1] at hl
@@ -789,7 +983,7 @@ theorem featLoop_feats (lines : List Str) (stop : Str) (B : List Str)
     rw [hloc]
     simp only [Outcome.bind_ok']
     -- the first line after the location
-    have e3 : lines = (A ++ fLine ft.key lc0 :: lcs.map (spaces 21 ++ ·)) ++ (qualsLines ft.quals (ls.headD {}).quals ++ stopF :: B1) := by
+    have e3 : lines = (A ++ fLine ft.key lc0 :: lcs.map (spaces 21 ++ ·)) ++ (QL ++ stopF :: B1) := by
       rw [hl]; simp
     have hline : lineAt lines (A.length + (0 + lcs.length + 1)) = .ok stopQ := by
       rw [e3, hB2]
@@ -799,36 +993,23 @@ theorem featLoop_feats (lines : List Str) (stop : Str) (B : List Str)
     rw [hline]
     simp only [Outcome.bind_ok']
     -- the qualifiers
-    have hq := qualLoop_quals lines stopF B1 hnextF.q1 hnextF.q2 ft.quals (ls.headD {}).quals
-      (A ++ fLine ft.key lc0 :: lcs.map (spaces 21 ++ ·)) [] (lines.length + 1) e3 hqw
+    have hq := qualLoop_quals lines stopF B1 hnextF.q1 hnextF.q2 ft.quals (ls.headD {}).quals (ls.headD {}).styles
+      (A ++ fLine ft.key lc0 :: lcs.map (spaces 21 ++ ·)) [] (lines.length + 1) (by rw [hQL]; exact e3) hqw
       (by
-        have : ft.quals.length ≤ (qualsLines ft.quals (ls.headD {}).quals).length := by
-          generalize (ls.headD {}).quals = lq
-          induction ft.quals generalizing lq with
-          | nil => simp
-          | cons q r ihq =>
-            obtain ⟨k, v⟩ := q
-            rw [qualsLines_cons]
-            have hne : (qualLines k v (lq.headD [])).length ≥ 1 := by
-              unfold qualLines
-              cases hcl : closeLast (valueChunks k v (lq.headD [])) <;> simp [hang]
-            have := ihq lq.tail
-            simp only [List.length_cons, List.length_append]; omega
+        have := qualsLines_length ft.quals (ls.headD {}).quals (ls.headD {}).styles
+        rw [hQL] at this
         rw [e3]; simp only [List.length_append, List.length_cons]; omega)
-    rw [hstopQ] at hq
+    rw [hQL, hstopQ] at hq
     simp only [List.length_append, List.length_cons, List.length_map] at hq
     rw [show A.length + (0 + lcs.length + 1) = A.length + (lcs.length + 1) by omega, hq]
     simp only [Outcome.bind_ok']
     -- the remaining features
-    have hrec := ih ls.tail (A ++ fLine ft.key lc0 :: (lcs.map (spaces 21 ++ ·) ++ qualsLines ft.quals (ls.headD {}).quals))
+    have hrec := ih ls.tail (A ++ fLine ft.key lc0 :: (lcs.map (spaces 21 ++ ·) ++ QL))
       (acc ++ [{ type := ft.key, gbkLoc := lc0 ++ lcs.flatten, attrs := ft.quals.foldl (fun m q => mapInsert m q.1 q.2) [] }])
       f (by rw [hl, hB1]; simp) (fun x hx => hwf x (by simp [hx])) (by simp at hf; omega)
     simp only [List.length_append, List.length_cons, List.length_map] at hrec
-    rw [show A.length + (lcs.length + 1) + (qualsLines ft.quals (ls.headD {}).quals).length
-      = A.length + (lcs.length + (qualsLines ft.quals (ls.headD {}).quals).length + 1) by omega, hrec]
-    have hattrs := foldl_mapInsert ft.quals [] hqd (by simp)
-    simp only [List.nil_append] at hattrs
+    rw [show A.length + (lcs.length + 1) + QL.length = A.length + (lcs.length + QL.length + 1) by omega, hrec]
     have hlocEq : lc0 ++ lcs.flatten = ft.loc := by rw [← hflat]; rfl
-    simp [hattrs, hlocEq, toFeature, List.append_assoc]
+    simp [hlocEq, toFeatureM, List.append_assoc]
 
 end PolyVerif.Lemmas.Genbank
